@@ -704,6 +704,10 @@ func (c *Ctx) compareTipIndexesRule() {
 func checkC09(c *Ctx) {
 	// the split look-up these results rest on is orientation/rooting independent (shared with C04)
 	c.Decides("SYM (shared with C04): the hash under which a split is looked up is invariant under exchanging the two sides of the branch, so the result does not depend on where either tree is rooted")
+	c.Decides("UNCOND-PREP: Consensus re-indexes every tree it receives without error (the call of ReinitIndexes sits under tests of errors only); NIL-ON-ERR: the Tree of a received item is touched only where its Err is known to be nil")
+	c.uncondPrep("UNCOND-PREP", c.Func("tree", "", "Consensus"), []string{"ReinitIndexes"}, "exactly the splits whose frequency exceeds the threshold")
+	c.Floor("UNCOND-PREP", 1)
+	c.nilOnErr("NIL-ON-ERR", []*FuncInfo{c.Func("tree", "", "Consensus")}, "an error in a tree of the collection is reported")
 	c.edgeHashSym()
 	c.Decides("GF: the split index keeps an entry iff (count > min ∧ count ≤ max) ∨ count = max and Consensus calls it with (int(cutoff·n), n); thresholds are rejected iff cutoff < 0.5 ∨ cutoff > 1")
 	c.Decides("LF: AddEdgeCount starts an entry at (1, length) and adds (1, length) to an existing one; the consensus branch gets length Len/Count and support Count/n, tip branches Len/Count; ERRFLOW: a tree carrying an error, failing to index, of different size or with an unknown name makes Consensus return a non-nil error")
@@ -973,6 +977,12 @@ func checkC09(c *Ctx) {
 
 func checkC10(c *Ctx) {
 	c.Decides("FRESH: the split index that FBP / TBE fill from a bootstrap tree is created anew for each bootstrap tree")
+	c.Decides("UNCOND-PREP: FBP and TBE re-index every bootstrap tree and compare its taxa with the reference for every tree received without error (ReinitIndexes / CompareTipIndexes sit under tests of errors and cancellation only); SEND-KEY: what FBP's workers send to the collector is the position of the enclosing loop over the reference branches")
+	c.uncondPrep("UNCOND-PREP", c.Func("support", "", "FBP"), []string{"ReinitIndexes", "CompareTipIndexes"}, "bootstrap trees on other taxa are rejected with an error")
+	c.uncondPrep("UNCOND-PREP", c.Func("support", "", "TBE"), []string{"ReinitIndexes", "CompareTipIndexes"}, "bootstrap trees on other taxa are rejected with an error")
+	c.Floor("UNCOND-PREP", 4)
+	c.sendKey("SEND-KEY", c.Func("support", "", "FBP"), "Felsenstein support equals the fraction of bootstrap trees containing the split")
+	c.Floor("SEND-KEY", 1)
 	for _, n := range []string{"FBP", "TBE"} {
 		if fi := c.Func("support", "", n); fi != nil {
 			c.freshPerItem("FRESH", fi, map[string]bool{"PutEdgeValue": true, "AddEdgeCount": true}, "NewEdgeIndex", "support equals the fraction of bootstrap trees containing the same split")
